@@ -26,6 +26,27 @@
 
 #include <string.h>
 
+#ifdef ASL_VERIF
+#    include "verifhook.h"
+
+static void VerifTraceChunk(Byte const* pData, unsigned Len) {
+    FILE*    pTrace = VerifTrace();
+    unsigned z;
+
+    if (!pTrace) {
+        return;
+    }
+    fprintf(pTrace, "E pass=%d file=%s line=%ld seg=%d gran=%d hdr=%02x addr=%llx phase=%llx len=%u hex=",
+            (int)PassNo, CurrFileName ? CurrFileName : "", (long)CurrLine, (int)ActPC,
+            (int)Granularity(), (unsigned)HeaderID, (unsigned long long)ProgCounter(),
+            (unsigned long long)Phases[ActPC], Len);
+    for (z = 0; z < Len; z++) {
+        fprintf(pTrace, "%02x", pData[z]);
+    }
+    fputc('\n', pTrace);
+}
+#endif
+
 #define CodeBufferSize 512
 
 static Word    LenSoFar;
@@ -198,6 +219,13 @@ void NewRecord(LargeWord NStart) {
     LongWord PC;
     Byte     Header;
 
+#ifdef ASL_VERIF
+    if (VerifTrace()) {
+        fprintf(VerifTrace(), "N pass=%d seg=%d hdr=%02x start=%llx lensofar=%u\n", (int)PassNo,
+                (int)ActPC, (unsigned)HeaderID, (unsigned long long)NStart, (unsigned)LenSoFar);
+    }
+#endif
+
     /* flush remaining code in buffer */
 
     FlushBuffer();
@@ -360,6 +388,9 @@ void WriteBytes(void) {
     if (((LongInt)LenSoFar) + ((LongInt)ErgLen) > 0xffff) {
         NewRecord(ProgCounter());
     }
+#ifdef ASL_VERIF
+    VerifTraceChunk(BAsmCode, ErgLen);
+#endif
     if (CodeBufferFill + ErgLen < CodeBufferSize) {
         memcpy(CodeBuffer + CodeBufferFill, BAsmCode, ErgLen);
         CodeBufferFill += ErgLen;
@@ -386,6 +417,12 @@ void RetractWords(Word Cnt) {
         WrError(ErrNum_ParNotPossible);
         return;
     }
+#ifdef ASL_VERIF
+    if (VerifTrace()) {
+        fprintf(VerifTrace(), "T pass=%d seg=%d bytes=%u\n", (int)PassNo, (int)ActPC,
+                (unsigned)ErgLen);
+    }
+#endif
 
     if (MakeUseList) {
         DeleteChunk(SegChunks + ActPC, ProgCounter() - Cnt, Cnt);
